@@ -231,37 +231,34 @@ func (gc GeometryCollection) Similar(g Geom, tolerance float64) bool {
 	}
 }
 
+// ringSimilar compares two rings of equal length. Rings that repeat their
+// first vertex at the end are compared up to a rotation of the start vertex;
+// other rings are compared vertex by vertex.
 func ringSimilar(a, b []Point, e float64) bool {
 	if len(a) != len(b) {
 		return false
 	}
-	ia := minPt(a)
-	ib := minPt(b)
-	for i := 0; i < len(a); i++ {
-		if !pointSimilar(a[ia], b[ib], e) {
-			return false
+	n := len(a)
+	if n < 2 || a[0] != a[n-1] || b[0] != b[n-1] {
+		return pointsSimilar(a, b, e)
+	}
+	// Closed rings: drop the repeated closing vertex and try every rotation.
+	a, b = a[:n-1], b[:n-1]
+	n--
+	if n == 0 {
+		return true
+	}
+	for k := 0; k < n; k++ {
+		match := true
+		for i := 0; i < n; i++ {
+			if !pointSimilar(a[i], b[(i+k)%n], e) {
+				match = false
+				break
+			}
 		}
-		ia = nextPt(ia, len(a))
-		ib = nextPt(ib, len(b))
-	}
-	return true
-}
-
-// ring iterator function
-func nextPt(i, l int) int {
-	if i == l-2 { // Skip the last point that matches the first point.
-		return 0
-	}
-	return i + 1
-}
-
-// find bottom-most of leftmost points, to have fixed anchor
-func minPt(c []Point) int {
-	min := 0
-	for j, p := range c {
-		if p.X < c[min].X || p.X == c[min].X && p.Y < c[min].Y {
-			min = j
+		if match {
+			return true
 		}
 	}
-	return min
+	return false
 }
